@@ -54,3 +54,10 @@ pub unsafe fn vqtbl1q_u8(t: uint8x16_t, idx: uint8x16_t) -> uint8x16_t {
 pub unsafe fn vdupq_n_u8(x: u8) -> uint8x16_t {
     uint8x16_t([x; 16])
 }
+
+/// emulated `is_aarch64_feature_detected!("neon")`, settable by the C14 check
+pub static NEON_DETECTED: std::sync::atomic::AtomicBool = std::sync::atomic::AtomicBool::new(true);
+
+pub fn detected_neon() -> bool {
+    NEON_DETECTED.load(std::sync::atomic::Ordering::Relaxed)
+}
